@@ -30,13 +30,18 @@ logs = [parse(l) for l in ("/verif/seeded/_logs/eval.log", "/verif/seeded/_logs/
                             # complete re-evaluation against the final machinery and /repo HEAD
                             "/verif/seeded/_logs/eval_final2a.log", "/verif/seeded/_logs/eval_final2b.log",
                             "/verif/seeded/_logs/eval_final3.log")]
-first, final = {}, {}
+first, final, void = {}, {}, {}
 for lg in logs:
     for k, v in lg.items():
         cs = [c for c in v.get("checks", []) if c["exit"] in (0, 1, 2)]
         if not cs:
             continue
         v = dict(v, checks=cs)
+        if v.get("demo_patched") == 0:
+            # the change no longer breaks anything on /repo HEAD (its demo passes with it applied): it relied on
+            # a genuine defect that has been repaired since; the earlier evaluation stands
+            void[k] = v
+            continue
         first.setdefault(k, v)
         final[k] = v
 extra = {}
@@ -57,6 +62,10 @@ for d in sorted(glob.glob("/verif/seeded/C*-*")):
             "ran": "tools/eval_seeded.sh %s %s: scratch worktree of /repo HEAD, git apply patch.diff, demo with/without, "
                    "existing suite, then the property's quick check with NIXPY_REPO pointing at the worktree" % tuple(sid.split("-")),
             "first_evaluation": f0.get("checks"), "after_strengthening": f1.get("checks")}
+    if sid in void:
+        meta["void_on_repo_head"] = ("with the fix commits made later in /repo the patch still applies but its demo passes: the "
+                                     "change only did harm through a genuine defect (F20, deletion by entity id) that is "
+                                     "repaired now; evaluation above is the one made before that repair")
     if os.path.exists(os.path.join(d, "patch.orig.diff")):
         meta["rebased"] = ("patch.orig.diff is the change as delivered; it stopped applying after later fix commits in "
                            "/repo touched the same lines (delete_all / container deletion), so patch.diff is the same "
@@ -70,8 +79,9 @@ for d in sorted(glob.glob("/verif/seeded/C*-*")):
         return {1: "caught", 0: "missed", 2: "harness error"}.get(c["exit"], "rc=%d" % c["exit"]) + \
             ((" (" + c["first_signature"].split("|")[0] + ")") if c["exit"] == 1 and c["first_signature"] else "")
     others = [x["check"] for x in (f1.get("checks") or []) if x["check"] != prop and x["exit"] == 1]
-    rows.append("| %s | %s | %s |%s" % (sid, verdict(f0.get("checks")), verdict(f1.get("checks")),
-                                       (" also caught by " + ", ".join(others)) if others else ""))
+    rows.append("| %s | %s | %s |%s%s" % (sid, verdict(f0.get("checks")), verdict(f1.get("checks")),
+                                         (" also caught by " + ", ".join(others)) if others else "",
+                                         " (void on /repo HEAD since fix b6f0f7d)" if sid in void else ""))
 print("| seeded change | first evaluation | after strengthening | |")
 print("|---|---|---|---|")
 print("\n".join(rows))
